@@ -87,6 +87,8 @@ def generate(run=None):
     txt.append("/-- `MTS.get_burst_len(mod)` for mod = -2..39 (`none` = ValueError) -/")
     txt.append("def mtsBurstLen : List (Int × Option Nat) := [%s]\n" % ", ".join(
         "(%s, %s)" % (cd.lint(int(k)), "none" if v is None else "some %d" % v) for k, v in sorted(tab.items(), key=lambda kv: int(kv[0]))))
+    txt.append("/-- `data_msg.Modulation` (coding, burst length), in enum order -/")
+    txt.append("def liveMsgModulations : List (Nat × Nat) := [%s]\n" % ", ".join("(%d, %d)" % (c, bl) for _, c, bl in d["msg_modulations"]))
     txt.append("end OsmoVerif.Gen.TrxdProto\n")
     vf.write_if_changed(os.path.join(vf.LEAN, "OsmoVerif/Gen/TrxdProto.lean"), "\n".join(txt))
     return d
